@@ -142,8 +142,79 @@ def i_assert(ex, st, args, ctx):
         return None
     if r != 'sat':
         raise Unsupported('solver %s on assertion %s' % (r, msg))
+    # refine the uninterpreted isNumber/numval on the concrete strings of the model with Go's real answer (so the model replays natively)
+    facts = []
+    strs = [v for v in st.draws.values() if z3.is_string(v)]
+    if strs:
+        # first try to find the counterexample among a dictionary of typical numbers / non-numbers, with Go's true answers for them
+        D = ['', '0x', 'zz', ' 1', '1.5', '0x1f', '12', '0', '0x0', '-1', '0b1', '1_0', '0x1G']
+        isn = uf(ex, 'isNumber_base0', z3.StringSort(), z3.BoolSort())
+        nv = uf(ex, 'numval_base0', z3.StringSort(), z3.BitVecSort(BIG))
+        dfacts = []
+        for w in D:
+            val = go_setstring0(w)
+            dfacts.append(isn(z3.StringVal(w)) == (val is not None))
+            if val is not None and val >= 0:
+                dfacts.append(nv(z3.StringVal(w)) == bvval(val, BIG))
+        dfacts += [z3.Or(*[v == z3.StringVal(w) for w in D]) for v in strs]
+        rd, sold = ex.check(st.pc, [z3.Not(c)] + dfacts)
+        if rd == 'sat':
+            raise PathEnd('assert', {'msg': msg, 'pos': ctx['pos'], 'model': sold.model()})
+    for _ in range(12):
+        m = sol.model()
+        new = []
+        for v in st.draws.values():
+            if z3.is_string(v):
+                sv = m.eval(v, model_completion=True)
+                if z3.is_string_value(sv):
+                    val = go_setstring0(sv.as_string())
+                    isn = uf(ex, 'isNumber_base0', z3.StringSort(), z3.BoolSort())
+                    nv = uf(ex, 'numval_base0', z3.StringSort(), z3.BitVecSort(BIG))
+                    f = isn(sv) == (val is not None)
+                    if z3.is_false(m.eval(f, model_completion=True)):
+                        new.append(f)
+                    if val is not None and 0 <= val < (1 << BIG):
+                        g = nv(sv) == bvval(val, BIG)
+                        if z3.is_false(m.eval(g, model_completion=True)):
+                            new.append(g)
+        if not new:
+            break
+        facts.extend(new)
+        r2, sol2 = ex.check(st.pc, [z3.Not(c)] + facts)
+        if r2 == 'unsat':
+            return None       # the violation only existed for an impossible interpretation of isNumber on concrete strings... keep checking other strings
+        if r2 != 'sat':
+            break
+        sol = sol2
     e = PathEnd('assert', {'msg': msg, 'pos': ctx['pos'], 'model': sol.model()})
     raise e
+
+
+def go_setstring0(s):
+    """value if big.Int.SetString(s, 0) succeeds else None (Go number syntax with base prefixes; underscores only with a prefix)"""
+    t = s
+    if t[:1] in '+-':
+        t = t[1:]
+    base, pref = 10, False
+    low = t.lower()
+    if low.startswith('0x'):
+        base, t, pref = 16, t[2:], True
+    elif low.startswith('0b'):
+        base, t, pref = 2, t[2:], True
+    elif low.startswith('0o'):
+        base, t, pref = 8, t[2:], True
+    elif len(t) > 1 and t[0] == '0':
+        base, t, pref = 8, t[1:], True
+    if pref:
+        if '__' in t or t.endswith('_'):
+            return None
+        t = t.replace('_', '')
+    if not t:
+        return None
+    digs = '0123456789abcdef'[:base]
+    if any(ch not in digs for ch in t.lower()):
+        return None
+    return int(t, base)
 
 
 def i_big_eq(ex, st, args, ctx):
@@ -719,3 +790,20 @@ def buffer_Len(ex, st, args, ctx):
 
 
 BASE.update({'bytes.NewBuffer': bytes_NewBuffer, '(*bytes.Buffer).Reset': buffer_Reset, '(*bytes.Buffer).Len': buffer_Len})
+
+
+def i_is_number(ex, st, args, ctx):
+    s_ = args[0]
+    if s_.num is not None:
+        return z3.BoolVal(s_.num[0] == '0x' or s_.num[1] == 10)
+    return uf(ex, 'isNumber_base0', z3.StringSort(), z3.BoolSort())(s_.z)
+
+
+def i_num_val(ex, st, args, ctx):
+    s_ = args[0]
+    if s_.num is not None:
+        return Big(s_.num[2])
+    return Big(uf(ex, 'numval_base0', z3.StringSort(), z3.BitVecSort(BIG))(s_.z))
+
+
+INTRINSICS.update({'verifIsNumber': i_is_number, 'verifNumVal': i_num_val})
